@@ -200,6 +200,104 @@ theorem stripAll_mkMany_ne (cls : Cls) (ds : Chain) (hds : ∀ d ∈ ds, d.1 ≠
     simp only [hm, hm2] at this hb1 hb2
     simp [this, hb1, hb2]
 
+theorem popAxis_eq (kw : PDict) (hax : ∀ p ∈ kw, p.1 ≠ "axis") : popAxis kw = kw := by
+  apply List.filter_eq_self.2
+  intro q hq
+  simpa using hax q hq
+
+/-- passing the first parameter positionally instead of by keyword is the same call for python -/
+theorem bindRef_first_positional (s : Sig) (top : String) (ps : List String) (hp : s.params = top :: ps)
+    (kw : PDict) (arg : Val) (hl : kw.lookup top = some arg) :
+    bindRef s { args := [arg], kw := kw.erase top } = bindRef s { args := [], kw := kw } := by
+  have hB' : ((kw.erase top).any fun p => (s.params.take 1).contains p.1) = false := by
+    rw [List.any_eq_false]
+    intro p hpm
+    simp only [PDict.erase, List.mem_filter, bne_iff_ne] at hpm
+    simp [hp, hpm.2]
+  have hB : (kw.any fun p => (s.params.take 0).contains p.1) = false := by
+    rw [List.any_eq_false]; intro p _; simp
+  have hC : extraKw s (kw.erase top) = extraKw s kw := by
+    simp only [extraKw, PDict.erase, List.filter_filter]
+    apply List.filter_congr
+    intro p _
+    by_cases h : p.1 = top
+    · simp [h, hp]
+    · simp [h]
+  have hV : ∀ n ∈ s.params, pyValue s { args := [arg], kw := kw.erase top } n = pyValue s { args := [], kw := kw } n := by
+    intro n hn
+    unfold pyValue
+    by_cases hnt : n = top
+    · subst hnt
+      simp [hp, hl]
+    · have hi : ¬ s.params.idxOf n < 1 := by
+        rw [hp, List.idxOf_cons]
+        have : (top == n) = false := by simpa using fun e => hnt e.symm
+        simp [this]
+      have hlk : (kw.erase top).lookup n = kw.lookup n := by
+        rw [lookup_erase]; simp [hnt]
+      simp only [List.length_cons, List.length_nil, Nat.zero_add, hi, ↓reduceIte, Nat.not_lt_zero, hlk]
+  have hS : starEntries s { args := [arg], kw := kw.erase top } = starEntries s { args := [], kw := kw } := by
+    simp only [starEntries, hC]
+    congr 1
+    cases s.varargs with
+    | none => rfl
+    | some n => simp [hp]
+  have hall : (s.params.all fun n => (pyValue s { args := [arg], kw := kw.erase top } n).isSome) =
+      (s.params.all fun n => (pyValue s { args := [], kw := kw } n).isSome) := by
+    rw [Bool.eq_iff_iff]
+    simp only [List.all_eq_true]
+    constructor <;> intro h n hn
+    · rw [← hV n hn]; exact h n hn
+    · rw [hV n hn]; exact h n hn
+  have hmap : s.params.map (fun n => (n, (pyValue s { args := [arg], kw := kw.erase top } n).getD (.cell .none))) =
+      s.params.map (fun n => (n, (pyValue s { args := [], kw := kw } n).getD (.cell .none))) := by
+    apply List.map_congr_left
+    intro n hn
+    rw [hV n hn]
+  have hA : ¬ (1 > s.params.length ∧ s.varargs = none) := by
+    rw [hp]; simp
+  have hA0 : ¬ (0 > s.params.length ∧ s.varargs = none) := by simp
+  unfold bindRef
+  simp only [List.length_cons, List.length_nil, Nat.zero_add, hA, hA0, hB', hB, hC, hall, hmap, hS,
+    ↓reduceIte, Bool.false_eq_true]
+
+/-- the call `loops` forwards is, for python, the call it received (unless a keyword is called `axis`) -/
+theorem loopsCall_bind (s : Sig) (c : Call) (hax : ∀ p ∈ c.kw, p.1 ≠ "axis") :
+    bindRef s (loopsCall s c) = bindRef s c := by
+  cases c with
+  | mk args kw =>
+    unfold loopsCall
+    cases args with
+    | cons a as => simp only [popAxis_eq kw hax]
+    | nil =>
+      cases hp : s.params with
+      | nil => rfl
+      | cons top ps =>
+        simp only
+        cases hl : kw.lookup top with
+        | none => rfl
+        | some arg =>
+          simp only
+          rw [popAxis_eq (kw.erase top) (fun p hpm => hax p (List.mem_filter.1 hpm).1)]
+          exact bindRef_first_positional s top ps hp kw arg hl
+
+theorem loopsCall_kw_sub (s : Sig) (c : Call) (p : String × Val) (h : p ∈ (loopsCall s c).kw) : p ∈ c.kw := by
+  cases c with
+  | mk args kw =>
+    unfold loopsCall at h
+    cases args with
+    | cons a as => exact (List.mem_filter.1 h).1
+    | nil =>
+      cases hp : s.params with
+      | nil => simpa [hp] using h
+      | cons top ps =>
+        simp only [hp] at h
+        cases hl : kw.lookup top with
+        | none => simpa [hl] using h
+        | some arg =>
+          simp only [hl] at h
+          exact (List.mem_filter.1 (List.mem_filter.1 h).1).1
+
 /-! ### updating twice with the same keywords -/
 
 theorem ovr_dichotomy (u : PDict) (k : String) : ∀ b b' : Option Val,
